@@ -151,6 +151,7 @@ def forwarded_names(func):
 def run(repo, rep, tier):
     explicit_namespace_wins(repo, rep, 'C04.R8')
     twin_target_normalisation(repo, rep)
+    iparam_typed_by_name(repo, rep, operations(repo))
     r1 = rep.rule('C04.R1', 'client IPARAMVALUE names = keys read by the '
                   'server-side adapter')
     r2 = rep.rule('C04.R2', 'None is omitted, everything else is sent')
@@ -518,17 +519,29 @@ def run(repo, rep, tier):
                     continue
                 r4.sites += 1
                 v = k.value
-                how = None
-                if isinstance(v, ast.Name):
-                    a = last_assign_before(f, v.id, c)
-                    if a is not None and isinstance(a.value, ast.Call) and \
-                            '_iparam_' in (dotted(a.value.func) or ''):
-                        how = dotted(a.value.func).split('.')[-1]
-                    elif v.id in validated:
-                        how = 'validated'
-                elif isinstance(v, ast.Subscript) and \
-                        norm(v) == 'context[0]':
-                    how = 'context[0] (validated by _validate_context)'
+                def origin(e, depth=0):
+                    """how the value was normalised, following plain local
+                    re-bindings (x = y, x = y[0])"""
+                    if isinstance(e, ast.Name):
+                        a = last_assign_before(f, e.id, c)
+                        if a is not None and \
+                                isinstance(a.value, ast.Call) and \
+                                '_iparam_' in (dotted(a.value.func) or ''):
+                            return dotted(a.value.func).split('.')[-1]
+                        if e.id in validated:
+                            return 'validated'
+                        if a is not None and depth < 3 and \
+                                len(a.targets) == 1 and \
+                                isinstance(a.targets[0], ast.Name):
+                            return origin(a.value, depth + 1)
+                        return None
+                    if isinstance(e, ast.Subscript) and \
+                            isinstance(e.value, ast.Name) and \
+                            isinstance(e.slice, ast.Constant) and \
+                            e.value.id in validated:
+                        return '%s (validated by _validate_*)' % norm(e)
+                    return None
+                how = origin(v)
                 ok = how is not None
                 r4.ob(ok, '%s:%s' % (f.name, k.arg),
                       {'operation': f.name, 'parameter': k.arg,
@@ -774,6 +787,8 @@ def twin_target_normalisation(repo, rep):
         if f is None:
             raise AnalysisError('%s.%s vanished' % (cls.name, fn))
         r9.functions.add(f.fq)
+        from ..inline import Flat
+        f = Flat(f, keep=('_meth_InvokeMethod',))
         exits = [c for c in walk_no_nested(f.node)
                  if isinstance(c, ast.Call) and is_exit(c)]
         if not exits:
@@ -811,3 +826,80 @@ def twin_target_normalisation(repo, rep):
                             'returned by AssociatorNames) behaves '
                             'differently on the direct and the CIM-XML '
                             'path' % '; '.join(what))
+
+
+def iparam_typed_by_name(repo, rep, ops):
+    """C04.R10: the server-side decoder gives an IPARAMVALUE a Python type
+    other than what its child element says only for parameters it knows by
+    name.  The boolean parameters travel as <VALUE>TRUE</VALUE> - exactly
+    like a string parameter whose value happens to be "true" - so the
+    conversion of the text to bool must sit under a test of the NAME
+    attribute against the boolean parameter names; converting every
+    true/false text makes Role='true' arrive as True at the provider."""
+    r10 = rep.rule('C04.R10', 'parse_iparamvalue converts text to bool only '
+                   'under a test of the parameter name')
+    from ..cfg import stmt_facts
+    tp = repo.cls('pywbem/_tupleparse.py', 'TupleParser')
+    f = tp.methods.get('parse_iparamvalue')
+    if f is None:
+        raise AnalysisError('parse_iparamvalue vanished')
+    r10.functions.add(f.fq)
+    # locals holding the NAME attribute
+    name_vars = set()
+    for n in walk_no_nested(f.node):
+        if isinstance(n, ast.Assign) and len(n.targets) == 1 and \
+                isinstance(n.targets[0], ast.Name) and \
+                "['NAME']" in norm(n.value, 200):
+            name_vars.add(n.targets[0].id)
+    if not name_vars:
+        raise AnalysisError('parse_iparamvalue: NAME attribute not read')
+    sent = set()
+    for op in ops:
+        for c in op.envelope_calls:
+            for k in call_keywords(op.func, c):
+                if k.arg:
+                    sent.add(k.arg.lower())
+    convs = []
+    for st, (facts, _t) in stmt_facts(f.node).items():
+        if not isinstance(st, ast.Assign):
+            continue
+        v = st.value
+        is_bool = (isinstance(v, ast.Compare) and any(
+            isinstance(x, ast.Constant) and
+            str(x.value).lower() in ('true', 'false')
+            for x in ast.walk(v))) or \
+            (isinstance(v, ast.Call) and dotted(v.func) == 'bool') or \
+            (isinstance(v, ast.Constant) and isinstance(v.value, bool))
+        if is_bool:
+            convs.append((st, facts))
+    if not convs:
+        raise AnalysisError('parse_iparamvalue: boolean conversion not found')
+    for st, facts in convs:
+        r10.sites += 1
+        names = None
+        for t, pol in facts:
+            if pol and isinstance(t, ast.Compare) and len(t.ops) == 1 and \
+                    isinstance(t.ops[0], ast.In) and \
+                    any(isinstance(x, ast.Name) and x.id in name_vars
+                        for x in ast.walk(t.left)) and \
+                    isinstance(t.comparators[0], (ast.Tuple, ast.List,
+                                                  ast.Set)):
+                names = [const_str(e) for e in t.comparators[0].elts]
+        ok = names is not None and all(n_ is not None for n_ in names)
+        unknown = [n_ for n_ in (names or []) if n_ and n_.lower() not in sent]
+        r10.ob(ok and not unknown, norm(st, 60),
+               {'guarded_by_names': names, 'not_sent_by_any_operation':
+                unknown})
+        if not ok:
+            rep.finding(r10, f.qualname, norm(st, 70), 'untyped-conversion',
+                        'pywbem/_tupleparse.py', st.lineno,
+                        'the text of the parameter is converted to bool '
+                        'without a test of the parameter name: a string '
+                        'parameter (Role, ResultRole, QueryLanguage, ...) '
+                        'whose value is "true" or "false" reaches the '
+                        'server as a bool, unlike on the direct path')
+        elif unknown:
+            rep.finding(r10, f.qualname, str(unknown), 'unknown-name',
+                        'pywbem/_tupleparse.py', st.lineno,
+                        'parameter names %s are converted to bool but no '
+                        'operation sends a parameter of that name' % unknown)
